@@ -17,7 +17,6 @@ FRAGS = ["[a-a]", "[b-a]", "[!b-a]", "[a-b-]", "[\\]a]", "[a\\-b]", "*", "?", "[
          "+(a|b)", "!(a)", "!(a|ab)", "!(*)", "@(a|!(b))", "+(?)", "*(a|)", "\\*", "\\[", "\\a", "a", "b", "ab", "A", "é", "\n", ".", "]", "-"]
 
 CLAUSES = {
-    "newline_line_anchors": "patterns are compiled with (?m): ^/$ match at line breaks, so a pattern matches when it matches one line of a multi-line subject",
     "bracket_leading_rbracket": "a ] right after [ , [! or [^ is not accepted as a bracket member, so []...] is read as literals",
     "extglob_negation_not_complement": "!(...) is encoded as (?:(?!alts).*|(?>alts).+?|) which is not the complement of the alternatives",
     "nocasematch_folds_named_class": "with nocasematch a named class such as [[:upper:]] is case-folded by the regex engine; bash does not fold classes",
@@ -244,7 +243,7 @@ def classify(ctx, cfg, p, s, b, o, rep, i, where, st):
         truth = None
     else:
         truth = o
-    defect_feature = ("\n" in s) or any(x in feats for x in "BAOKX") or (nc and "C" in feats)
+    defect_feature = any(x in feats for x in "BAOKX") or (nc and "C" in feats)
     if m != "U" and b != m:
         if truth is not None and b == truth and defect_feature:
             st["fixed"] += 1
@@ -262,9 +261,8 @@ def classify(ctx, cfg, p, s, b, o, rep, i, where, st):
         return
     # the property fails on brush here, and the model predicted it (or does not cover it): which defect class?
     sc = rep.get("spec_cfg")
-    if "\n" in s and full == truth:
-        cl = "newline_line_anchors"
-    elif sc is not None and (sc == "-" or sc[i] != sp):
+    # (line anchoring under (?ms) was repaired in compile_regex: a subject with a newline is no excuse any more)
+    if sc is not None and (sc == "-" or sc[i] != sp):
         cl = "cond_extglob_always_on"
     elif "K" in feats:
         cl = "bracket_leading_rbracket"
@@ -530,9 +528,7 @@ def judge_glob(ctx, cfg, where, p, b, o, m, st):
     names_in = lambda l: set(l)
     diff = names_in(b) ^ names_in(o)
     cl = None
-    if any("\n" in x for x in diff) or (b == [p] or o == [p]) and any("\n" in x for x in b + o):
-        cl = "newline_line_anchors"
-    elif "[]" in p or "[!]" in p or "[^]" in p:
+    if "[]" in p or "[!]" in p or "[^]" in p:
         cl = "bracket_leading_rbracket"
     elif "!(" in p and e:
         cl = "extglob_negation_not_complement"
